@@ -135,38 +135,99 @@ def run(rep, prog, tier):
     muts = [n for n in own_nodes(lp) if isinstance(n, (ast.Assign, ast.AugAssign)) and isinstance((n.targets[0] if isinstance(n, ast.Assign) else n.target), (ast.Subscript, ast.Attribute))]
     rep.ob('R-PURE', 'll_per_bin arguments', not muts, 'no store into model/data (%d subscript/attribute stores)' % len(muts), m.rel, lp.lineno, what='arguments are not modified')
     # ---- sums and wrappers -------------------------------------------------------------------------------------------
+    # what each wrapper returns, as a value (abstract execution; calls of other program functions stay symbolic, so temporaries,
+    # nesting and the reuse of optimally_scaled_sfs do not matter)
+    from sa import miniexec as mx
+    from sa import alpha as _alpha
+    known_ = _alpha.load_table().get('__params__', {}).get(m.rel)
+    known_ = set(known_) if known_ is not None else None
+
+    def returned(fn, enter=(), mod=m, hook=None):
+        it = mx.Interp(prog, mod, known_functions=known_ if mod is m else None, enter=enter, call_hook=hook)
+        paths = it.run(fn, {p_: mx.Sym(p_) for p_ in positional_params(fn)})
+        return paths
     simple = {
-        'll': ['ll_arr = ll_per_bin(model, data)', 'return numpy.sum(ll_arr)'],
-        'll_multinom': ['ll_arr = ll_multinom_per_bin(model, data)', 'return numpy.sum(ll_arr)'],
-        'll_multinom_per_bin': ['theta_opt = optimal_sfs_scaling(model, data)', 'return ll_per_bin(theta_opt * model, data)'],
-        'minus_ll': ['return -ll(model, data)'],
-        'minus_ll_multinom': ['return -ll_multinom(model, data)'],
-        'optimally_scaled_sfs': ['return optimal_sfs_scaling(model, data) * model'],
+        'll': 'numpy.sum(ll_per_bin(model, data))',
+        'll_multinom': 'numpy.sum(ll_multinom_per_bin(model, data))',
+        'll_multinom_per_bin': 'll_per_bin((optimal_sfs_scaling(model, data) * model), data)',
+        'minus_ll': '-ll(model, data)',
+        'minus_ll_multinom': '-ll_multinom(model, data)',
+        'optimally_scaled_sfs': '(optimal_sfs_scaling(model, data) * model)',
     }
     for q, want in simple.items():
         fn = prog.func(INF, q)
-        body = [ast.unparse(s) for s in fn.body if not (isinstance(s, ast.Expr) and isinstance(s.value, ast.Constant))]
-        rep.ob('R-TPL', 'Inference.%s' % q, body == want, '; '.join(body), m.rel, fn.lineno, what=' ; '.join(want))
+        try:
+            paths = returned(fn, enter=('optimally_scaled_sfs',) if q == 'll_multinom_per_bin' else ())
+            got = [mx.show(p_[0][1]) if p_[0][0] == 'return' else 'raise %s' % p_[0][1] for p_ in paths]
+        except mx.Undecidable as e:
+            got = ['not recognised: %s' % e]
+        rep.ob('R-TPL', 'Inference.%s' % q, got == [want] or got == ['(%s)' % want], '; '.join(got)[:160], m.rel, fn.lineno, what='returns ' + want)
     # ---- optimal_sfs_scaling --------------------------------------------------------------------------------------------
     os_ = prog.func(INF, 'optimal_sfs_scaling')
-    im = [n for n in os_.body if isinstance(n, ast.Assign) and isinstance(n.value, ast.Call) and (dotted(n.value.func) or '').endswith('intersect_masks')]
-    ret = [n for n in os_.body if isinstance(n, ast.Return)]
-    ok = False
-    det = 'intersect_masks call or return not found'
-    if len(im) == 1 and len(ret) == 1 and isinstance(im[0].targets[0], ast.Tuple) and len(im[0].targets[0].elts) == 2:
-        a, b = [ast.unparse(e) for e in im[0].targets[0].elts]
-        args = [ast.unparse(x) for x in im[0].value.args]
-        ok = args == ['model', 'data'] and ast.unparse(ret[0].value) == 'numpy.sum(%s) / numpy.sum(%s)' % (b, a) and os_.body.index(im[0]) < os_.body.index(ret[0])
-        det = '%s, %s = intersect_masks(%s); return %s' % (a, b, ', '.join(args), ast.unparse(ret[0].value))
-    rep.ob('R-FLOW', 'optimal_sfs_scaling', ok, det, m.rel, ret[0].lineno if ret else os_.lineno, what='sum(data)/sum(model) over the two arrays returned by intersect_masks')
+    try:
+        paths = returned(os_)
+        got = [mx.show(p_[0][1]) for p_ in paths if p_[0][0] == 'return']
+        ok = bool(got)
+        for p_ in paths:
+            if p_[0][0] != 'return':
+                continue
+            v = p_[0][1]
+            okp = isinstance(v, mx.Sym) and v.struct and v.struct[0] == 'binop' and v.struct[1] == '/'
+            if okp:
+                parts = []
+                for side, k in ((v.struct[2], 1), (v.struct[3], 0)):
+                    c_ = mx.call_of(side, 'sum')
+                    x = c_[0][0] if c_ is not None and len(c_[0]) == 1 and not c_[1] else None
+                    okp = okp and isinstance(x, mx.Sym) and x.struct and x.struct[0] == 'index' and x.struct[2] == k
+                    parts.append(x.struct[1] if okp else None)
+                if okp:
+                    im_ = mx.call_of(parts[0], 'intersect_masks')
+                    okp = mx.show(parts[0]) == mx.show(parts[1]) and im_ is not None and len(im_[0]) == 2 and mx.show(im_[0][1]) == 'data' and mx.show(im_[0][0]).split('.')[0] == 'model'
+            ok = ok and okp
+        det = '%d paths (the automatic folding of the model forks): %s' % (len(got), got[0][:110] if got else '')
+    except mx.Undecidable as e:
+        ok, det = False, 'optimal_sfs_scaling is not recognised: %s' % e
+    rep.ob('R-FLOW', 'optimal_sfs_scaling', ok, det, m.rel, os_.lineno, what='sum(data)/sum(model) over the two arrays returned by intersect_masks')
     ism = prog.func(NUM, 'intersect_masks')
     nm = prog.mod(NUM)
-    t = ast.unparse(ism)
-    okj = 'joint_mask = ma.mask_or(ma.getmask(m1), ma.getmask(m2))' in t and 'm1 = dadi.Spectrum(m1, mask=joint_mask.copy())' in t and 'm2 = dadi.Spectrum(m2, mask=joint_mask.copy())' in t
-    rr = [ast.unparse(n.value) for n in own_nodes(ism) if isinstance(n, ast.Return)]
-    okj = okj and all(x in ('(m1, m2)', 'm1, m2') for x in rr)
-    early = [n for n in ism.body if isinstance(n, ast.If) and 'numpy.all(m1.mask == m2.mask)' in ast.unparse(n.test)]
-    rep.ob('R-TPL', 'Numerics.intersect_masks', okj and bool(early), 'joint mask = OR of both masks, applied (as copies) to both arrays; identical masks short-circuit', nm.rel, ism.lineno,
+    badm = []
+    try:
+        for a_masked in (True, False):
+            for b_masked in (True, False):
+                for same in ((True, False) if a_masked and b_masked else (False,)):
+                    def hook(nm_, args, kwargs, a_masked=a_masked, b_masked=b_masked, same=same):
+                        last = nm_.split('.')[-1]
+                        if last == 'isMaskedArray' and len(args) == 1:
+                            return a_masked if mx.show(args[0]) == 'm1' else b_masked
+                        if last == 'all' and len(args) == 1:
+                            return same
+                        return NotImplemented
+                    paths = returned(ism, mod=nm, hook=hook)
+                    tag = 'm1 %smasked, m2 %smasked%s' % ('' if a_masked else 'un', '' if b_masked else 'un', (', masks %s' % ('equal' if same else 'different')) if a_masked and b_masked else '')
+                    if len(paths) != 1 or paths[0][0][0] != 'return' or not isinstance(paths[0][0][1], tuple) or len(paths[0][0][1]) != 2:
+                        badm.append('%s: %d paths' % (tag, len(paths)))
+                        continue
+                    r1, r2 = paths[0][0][1]
+                    if (a_masked and b_masked and same) or not (a_masked or b_masked):
+                        if (mx.show(r1), mx.show(r2)) != ('m1', 'm2'):
+                            badm.append('%s: returns %s, %s' % (tag, mx.show(r1)[:40], mx.show(r2)[:40]))
+                        continue
+                    for r_, nm1 in ((r1, 'm1'), (r2, 'm2')):
+                        c_ = mx.call_of(r_, 'Spectrum')
+                        okr = c_ is not None and [mx.show(x) for x in c_[0]] == [nm1] and set(c_[1]) == {'mask'}
+                        if okr:
+                            mk = c_[1]['mask']
+                            src = mx.method_call(mk, 'copy')
+                            if src is None:
+                                cc = mx.call_of(mk, 'copy') or mx.call_of(mk, 'array')
+                                src = cc[0][0] if cc and cc[0] else None
+                            mo = mx.call_of(src, 'mask_or') if src is not None else None
+                            okr = mo is not None and sorted(mx.show(x) for x in mo[0]) in (['numpy.ma.getmask(m1)', 'numpy.ma.getmask(m2)'], ['ma.getmask(m1)', 'ma.getmask(m2)'], ['numpy.ma.getmaskarray(m1)', 'numpy.ma.getmaskarray(m2)'])
+                        if not okr:
+                            badm.append('%s: %s becomes %s' % (tag, nm1, mx.show(r_)[:70]))
+    except mx.Undecidable as e:
+        badm.append('intersect_masks is not recognised: %s' % e)
+    rep.ob('R-TPL', 'Numerics.intersect_masks', not badm, '; '.join(badm[:2]) if badm else 'joint mask = OR of both masks, applied (as copies) to both arrays; identical masks short-circuit', nm.rel, ism.lineno,
            what='both arrays are masked where either was masked')
     # ---- residuals -----------------------------------------------------------------------------------------------------------
     lr = prog.func(INF, 'linear_Poisson_residual')
